@@ -22,7 +22,7 @@ PROP = "C03"
 INV = ("PInBounds", "POnlyDocumentedError", "DeLeavesModeAsFound")
 
 
-def de_records(tier, tmp, progs, types):
+def de_records(tier, tmp, progs, types, need_unwind=True):
     recs, stats = [], {"states": 0, "transitions": 0, "runs": []}
     light = tier == "quick"
     sel = progs if tier == "thorough" else progs[(int(__import__("os").environ.get("VERIF_SEED", "0")) % 4)::4]
@@ -33,7 +33,7 @@ def de_records(tier, tmp, progs, types):
         stats["transitions"] += s["transitions"]
         stats["runs"].append({"mode": name, "distinct_states": s["states"], "action_counts": s["action_counts"]})
         require(s["action_counts"]["DeStep"] > 0 and s["action_counts"]["DeReturn"] > 0, "vacuity: deserializer actions never fired")
-    require(s1["action_counts"]["DeUnwind"] + s2["action_counts"]["DeUnwind"] > 0, "vacuity: no behaviour raised (negative length never reached)")
+    require(not need_unwind or s1["action_counts"]["DeUnwind"] + s2["action_counts"]["DeUnwind"] > 0, "vacuity: no behaviour raised (negative length never reached)")
     recs = [r for r in r1 + r2 if r["kind"] == "de"]
     return recs, stats
 
@@ -52,78 +52,97 @@ def run(tier, corrupt=False):
     types = library()
     with scratch("c03-") as tmp:
         progs = full_corpus(tmp, tier)
-        recs, stats = de_records(tier, tmp, progs, types)
-        stats["liveness"] = liveness(tmp, progs, types)
-        require(len(recs) > 5000, f"too few behaviours from TLC ({len(recs)})")
-        with scratch("c03w-") as wt:
-            src, accepted, rejected = prepare_world(wt, progs, types)
-            acc = {p["name"] for p in accepted}
-            kept = [r for r in recs if r["prog"] in acc and r["status"] != "bound"]
-            nbound = sum(1 for r in recs if r["status"] == "bound")
-            cases = [{"kind": "de", "prog": r["prog"], "data": r["data"], "ch0": r["ch0"], "dfuel": -1} for r in kept]
-            imp, results = run_drivers_parallel(src, wt, accepted, types, cases)
-            if imp:
-                v.violation("generated package not importable", imp.strip().splitlines()[-1], {"trace": imp})
-                results = []
-            n = 0
-            for r, o in zip(kept, results):
-                n += 1
-                if "harness_error" in o:
-                    raise MachineryError(o["harness_error"])
-                if corrupt and n == 77:
-                    o = dict(o, pos=(o["pos"] or 0) + 1)
-                key = f"{r['prog']} data={r['data']} chunked0={r['ch0']}"
-                case = {"prog": r["prog"], "data": r["data"], "ch0": r["ch0"], "model": {"exc": r["exc"], "obj": r["obj"], "pos": r["pos"]},
-                        "observed": {"exc": o["exc"], "obj": o["obj"], "pos": o["pos"], "msg": o.get("exc_msg")}}
-                if o["exc"] != r["exc"]:
-                    v.violation(key, f"deserialize raised {o['exc'] or 'nothing'} ({o.get('exc_msg', '')}); the reading rules give "
-                                     f"{r['exc'] or 'an object'}", case)
-                    continue
-                if r["exc"] == "":
-                    if strip_kinds(o["obj"]) != r["obj"]:
-                        v.violation(key, f"object differs from the one the reading rules prescribe: got {short(strip_kinds(o['obj']))}, expected {short(r['obj'])}", case)
-                    elif o["pos"] != r["pos"]:
-                        v.violation(key, f"reader position {o['pos']} after deserialize, the reading rules consume {r['pos']}", case)
-            # ---- pattern V: uniformly random bytes and mutations of the serializations of random larger objects, judged by TLC (givenbytes)
-            import random
-            from ..common import seed
-            rng = random.Random(seed() * 7919 + 3)
-            ctypes = {**types, **{p["name"]: {"kind": "struct", "dir": p["dir"], "code": p["code"]} for p in progs if p["kind"] == "struct"}}
-            gen = Gen(ctypes, rng)
-            idx = {p["name"]: i + 1 for i, p in enumerate(progs)}
-            per = 3 if tier == "quick" else 25
-            scases = [{"kind": "ser", "prog": p["name"], "san0": False, "fuel": -1, "obj": gen.obj(p["code"], p["name"]), "salt": k} for p in accepted for k in range(per)]
-            imp2, sres = run_drivers_parallel(src, wt, accepted, types, scases)
-            vcases = []
-            for c, o in zip(scases, sres):
-                base = o["bytes"] if not o.get("ctor_exc") and not o.get("exc") else []
-                for _ in range(3):
-                    vcases.append({"p": idx[c["prog"]], "data": mutate_bytes(rng, base), "ch0": rng.random() < 0.2})
-            model = tlc_given(tmp, progs, types, vcases, "givenbytes")
-            dcases = [{"kind": "de", "prog": progs[c["p"] - 1]["name"], "data": c["data"], "ch0": c["ch0"], "dfuel": -1} for c in vcases]
-            imp3, dres = run_drivers_parallel(src, wt, accepted, types, dcases)
-            nv = 0
-            for c, m, o in zip(vcases, model, dres):
-                if m["status"] == "bound":
-                    nbound += 1
-                    continue
-                nv += 1
-                if "harness_error" in o:
-                    raise MachineryError(o["harness_error"])
-                prog = progs[c["p"] - 1]["name"]
-                key = f"{prog} (random) data={c['data']} chunked0={c['ch0']}"
-                case = {"prog": prog, "data": c["data"], "ch0": c["ch0"], "model": {"exc": m["exc"], "obj": m["obj"], "pos": m["pos"]}, "observed": {"exc": o["exc"], "obj": o["obj"], "pos": o["pos"], "msg": o.get("exc_msg")}}
-                if o["exc"] != m["exc"]:
-                    v.violation(key, f"deserialize raised {o['exc'] or 'nothing'} ({o.get('exc_msg', '')}); the reading rules give {m['exc'] or 'an object'}", case)
-                elif m["exc"] == "" and strip_kinds(o["obj"]) != m["obj"]:
-                    v.violation(key, f"object differs from the one the reading rules prescribe: got {short(strip_kinds(o['obj']))}, expected {short(m['obj'])}", case)
-                elif m["exc"] == "" and o["pos"] != m["pos"]:
-                    v.violation(key, f"reader position {o['pos']} after deserialize, the reading rules consume {m['pos']}", case)
-            n += nv
+        from .c02 import merge_stats, program_groups
+        all_progs = progs
+        live = liveness(tmp, progs, types)
+        groups = program_groups(all_progs, tier)          # thorough: judged group by group (memory)
+        tot = {"stats": None, "n": 0, "nv": 0, "nbound": 0, "samples": None}
+        for gi, progs in enumerate(groups):
+            recs, stats = de_records(tier, tmp, progs, types, need_unwind=(gi == 0))
+            require(len(recs) > 5000, f"too few behaviours from TLC ({len(recs)})")
+            with scratch("c03w-") as wt:
+                src, accepted, rejected = prepare_world(wt, progs, types)
+                acc = {p["name"] for p in accepted}
+                kept = [r for r in recs if r["prog"] in acc and r["status"] != "bound"]
+                nbound = sum(1 for r in recs if r["status"] == "bound")
+                cases = [{"kind": "de", "prog": r["prog"], "data": r["data"], "ch0": r["ch0"], "dfuel": -1} for r in kept]
+                imp, results = run_drivers_parallel(src, wt, accepted, types, cases)
+                if imp:
+                    v.violation("generated package not importable", imp.strip().splitlines()[-1], {"trace": imp})
+                    results = []
+                n = 0
+                for r, o in zip(kept, results):
+                    n += 1
+                    if "harness_error" in o:
+                        raise MachineryError(o["harness_error"])
+                    if corrupt and n == 77:
+                        o = dict(o, pos=(o["pos"] or 0) + 1)
+                    key = f"{r['prog']} data={r['data']} chunked0={r['ch0']}"
+                    case = {"prog": r["prog"], "data": r["data"], "ch0": r["ch0"], "model": {"exc": r["exc"], "obj": r["obj"], "pos": r["pos"]},
+                            "observed": {"exc": o["exc"], "obj": o["obj"], "pos": o["pos"], "msg": o.get("exc_msg")}}
+                    if o["exc"] != r["exc"]:
+                        v.violation(key, f"deserialize raised {o['exc'] or 'nothing'} ({o.get('exc_msg', '')}); the reading rules give "
+                                         f"{r['exc'] or 'an object'}", case)
+                        continue
+                    if r["exc"] == "":
+                        if strip_kinds(o["obj"]) != r["obj"]:
+                            v.violation(key, f"object differs from the one the reading rules prescribe: got {short(strip_kinds(o['obj']))}, expected {short(r['obj'])}", case)
+                        elif o["pos"] != r["pos"]:
+                            v.violation(key, f"reader position {o['pos']} after deserialize, the reading rules consume {r['pos']}", case)
+                # ---- pattern V: uniformly random bytes and mutations of the serializations of random larger objects, judged by TLC (givenbytes)
+                import random
+                from ..common import seed
+                rng = random.Random(seed() * 7919 + 3)
+                ctypes = {**types, **{p["name"]: {"kind": "struct", "dir": p["dir"], "code": p["code"]} for p in progs if p["kind"] == "struct"}}
+                gen = Gen(ctypes, rng)
+                idx = {p["name"]: i + 1 for i, p in enumerate(progs)}
+                per = 3 if tier == "quick" else 25
+                scases = [{"kind": "ser", "prog": p["name"], "san0": False, "fuel": -1, "obj": gen.obj(p["code"], p["name"]), "salt": k} for p in accepted for k in range(per)]
+                imp2, sres = run_drivers_parallel(src, wt, accepted, types, scases)
+                vcases = []
+                for c, o in zip(scases, sres):
+                    base = o["bytes"] if not o.get("ctor_exc") and not o.get("exc") else []
+                    for _ in range(3):
+                        vcases.append({"p": idx[c["prog"]], "data": mutate_bytes(rng, base), "ch0": rng.random() < 0.2})
+                model = tlc_given(tmp, progs, types, vcases, "givenbytes")
+                dcases = [{"kind": "de", "prog": progs[c["p"] - 1]["name"], "data": c["data"], "ch0": c["ch0"], "dfuel": -1} for c in vcases]
+                imp3, dres = run_drivers_parallel(src, wt, accepted, types, dcases)
+                nv = 0
+                for c, m, o in zip(vcases, model, dres):
+                    if m["status"] == "bound":
+                        nbound += 1
+                        continue
+                    nv += 1
+                    if "harness_error" in o:
+                        raise MachineryError(o["harness_error"])
+                    prog = progs[c["p"] - 1]["name"]
+                    key = f"{prog} (random) data={c['data']} chunked0={c['ch0']}"
+                    case = {"prog": prog, "data": c["data"], "ch0": c["ch0"], "model": {"exc": m["exc"], "obj": m["obj"], "pos": m["pos"]}, "observed": {"exc": o["exc"], "obj": o["obj"], "pos": o["pos"], "msg": o.get("exc_msg")}}
+                    if o["exc"] != m["exc"]:
+                        v.violation(key, f"deserialize raised {o['exc'] or 'nothing'} ({o.get('exc_msg', '')}); the reading rules give {m['exc'] or 'an object'}", case)
+                    elif m["exc"] == "" and strip_kinds(o["obj"]) != m["obj"]:
+                        v.violation(key, f"object differs from the one the reading rules prescribe: got {short(strip_kinds(o['obj']))}, expected {short(m['obj'])}", case)
+                    elif m["exc"] == "" and o["pos"] != m["pos"]:
+                        v.violation(key, f"reader position {o['pos']} after deserialize, the reading rules consume {m['pos']}", case)
+                n += nv
+            tot["n"] += n
+            tot["nv"] += nv
+            tot["nbound"] += nbound
+            if tot["samples"] is None:
+                tot["samples"] = [{k: kept[0][k] for k in ("prog", "data", "ch0", "exc", "obj")}, {k: kept[-1][k] for k in ("prog", "data", "ch0", "exc", "obj")}]
+            if tot["stats"] is None:
+                tot["stats"] = stats
+            else:
+                tot["stats"] = {"states": tot["stats"]["states"] + stats["states"], "transitions": tot["stats"]["transitions"] + stats["transitions"],
+                                "runs": [dict(a, distinct_states=a["distinct_states"] + b["distinct_states"], action_counts=merge_stats(a["action_counts"], b["action_counts"]))
+                                         for a, b in zip(tot["stats"]["runs"], stats["runs"])]}
+            del recs, kept, results, model, dres, sres
+        progs, stats, n, nv, nbound = all_progs, tot["stats"], tot["n"], tot["nv"], tot["nbound"]
+        stats["liveness"] = live
     cov = {"states": stats["states"], "transitions": stats["transitions"], "model_runs": stats["runs"], "liveness": stats["liveness"],
            "random_byte_strings_validated": nv,
            "traces_validated_against_impl": n, "resource_bound_skipped": nbound, "programs": len(progs),
-           "samples": [{k: kept[0][k] for k in ("prog", "data", "ch0", "exc", "obj")}, {k: kept[-1][k] for k in ("prog", "data", "ch0", "exc", "obj")}],
+           "samples": tot["samples"], "program_groups": len(groups),
            "exhaustive": False,
            "explanation": "hostile: all single-fault corruptions of all valid serializations over the bounded object domains; bytes: all short byte "
                           "strings over {0,1,2,254,255}; each replayed on the generated deserialize"}
